@@ -22,4 +22,7 @@ def run(chk, program, tier):
         chk.rule(r, t)
     K.send_rules(chk, program)
     K.lock_owner(chk, program)
+    chk.rule('FAULT-PATH', 'a failing write reports DISCONNECTED and starts a reconnect, every time (C13)')
+    from .c16 import _Sub
+    K.fault_path(_Sub(chk, {'FAULT-PATH'}), program)
     K.send_types(chk, program)
